@@ -68,6 +68,18 @@ package exit
 //@ requires domainAllowed ==> (exists k in 0..len(h.cfg.AllowedDomains): patMatch(h.cfg.AllowedDomains[k], destAddr))
 //@ after call (*Handler).isAllowed let okByRoute = $ret && (exists j in 0..len(h.cfg.AllowedRoutes): ipInNet(h.cfg.AllowedRoutes[j], ip))
 //@ at call DialContext assert (domainAllowed && old(exists k in 0..len(h.cfg.AllowedDomains): patMatch(h.cfg.AllowedDomains[k], destAddr))) || okByRoute
+//@ note C03 (responder, TCP stream): one fresh pair; secret = ECDH(own private, initiator's public) with nil error; key derived for (request id received, initiator public, own public, responder); that key is the connection's key and the ACK carries the own public key and the same request id
+//@ after call crypto.GenerateEphemeralKeypair let c03priv = $ret0
+//@ after call crypto.GenerateEphemeralKeypair let c03pub = $ret1
+//@ after call crypto.GenerateEphemeralKeypair let c03genErr = $ret2
+//@ at[C03] call crypto.ComputeECDH assert c03genErr == nil && c03pub == pubOf(c03priv)
+//@ at[C03] call crypto.ComputeECDH assert $0 == c03priv && $1 == remoteEphemeralPub
+//@ after call crypto.ComputeECDH let c03secret = $ret0
+//@ after call crypto.ComputeECDH let c03dhErr = $ret1
+//@ at[C03] call crypto.DeriveSessionKey assert c03dhErr == nil && $0 == c03secret && c03secret == dh(c03priv, remoteEphemeralPub) && c03secret != zeros()
+//@ at[C03] call crypto.DeriveSessionKey assert $1 == requestID && $2 == remoteEphemeralPub && $3 == c03pub && $4 == false
+//@ after call crypto.DeriveSessionKey let c03key = $ret
+//@ at[C03] call WriteStreamOpenAck assert $3 == requestID && $6 == c03pub && ac.sessionKey == c03key && c03key != nil
 
 //@ census[C19] DialContext in (*Handler).handleStreamOpenAsync, (*Resolver).Resolve$1
 //@ census[C19] (*Handler).handleStreamOpenAsync in (*Handler).HandleStreamOpen$1
@@ -113,6 +125,11 @@ package exit
 //@ after call Encrypt let ct = $ret0
 //@ at call StreamWriter.WriteStreamData#0 assert $3 == ct && len($3) <= 16384 && $1 == ac.RemoteID && $2 == ac.StreamID && $4 == 0
 //@ at call StreamWriter.WriteStreamData#1 assert len($3) == 0 && $1 == ac.RemoteID && $2 == ac.StreamID && $4 == 1
+//@ note C04 (endpoint): whatever this loop hands to the mesh for the tunnel is the output of Encrypt under the connection's own key, or empty (FIN)
+//@ at[C04] call Encrypt assert $0 == ac.sessionKey && ac.sessionKey != nil
+//@ at[C04] call StreamWriter.WriteStreamData#0 assert $3 == ct
+//@ at[C04] call StreamWriter.WriteStreamData#1 assert len($3) == 0
+//@ census[C04] StreamWriter.WriteStreamData in (*Handler).readLoop
 //@ census[C07] StreamWriter.WriteStreamData in (*Handler).readLoop
 
 // Forward path at the far end: the payload of a data frame is opened whole and
@@ -147,3 +164,6 @@ package exit
 //@ ensures had ==> c17rm == -1
 //@ ensures !had ==> c17rm == 0 && result == nil
 //@ note C16: removal touches no other stream's entry (second guard: evaluated against the map as of function entry is not possible across the lock, so it is stated at release against the state read at acquire)
+
+//@ census[C03] crypto.DeriveSessionKey in (*Handler).handleStreamOpenAsync
+//@ census[C03] crypto.ComputeECDH in (*Handler).handleStreamOpenAsync
